@@ -75,7 +75,10 @@ def main():
             res[c] = {"rc": rc, "violations": sum(1 for l in o.splitlines() if l.startswith("VIOLATION")), "first": first, "wall_s": round(time.time() - t0, 1)}
             if rc == 2:
                 res[c]["harness"] = o[-600:]
+            if rc == 1 and "--until-caught" in sys.argv:
+                break  # the remaining checks were not run (recorded as such in eval.json)
         out["checks"] = res
+        out["checks_not_run"] = [c for c in checks if c not in res]
         out["caught_by"] = [c for c, r in res.items() if r["rc"] == 1]
     finally:
         sh("git checkout -- labrea tests && git clean -fdq labrea tests", cwd=REPO)
